@@ -2,8 +2,11 @@
    lexically and walked by key and index (jwalk), match operators have their documented meaning on JSON values (jmatch),
    not / and / or combine left to right with short-circuit, any / all fold over list elements in index order and over object
    members in sorted key order, an absent member of an object (selector of two or more parts) follows the table.
-   Theorem json_eval: for every well-formed expression and every JSON document, Evaluate (the model of evaluate.go, no hook,
-   no unknown value) never panics and returns exactly jeval's result (up to the error class). *)
+   With an unknown value configured (itself a JSON value), a selector that fails only because a member is absent from an
+   object - at any depth - evaluates as if it had resolved to that value.
+   Theorem json_eval_unknown: for every well-formed expression, every JSON document and every unknown value or none, Evaluate
+   (the model of evaluate.go, no hook) never panics and returns exactly jeval's result (up to the error class); json_eval is
+   the case without an unknown value. *)
 From Coq Require Import List ZArith String Bool NArith Lia.
 Import ListNotations.
 From Bexpr Require Import Base Strconv Ast Univ Eval Typing Props Lexical Unroll LexEval Json JsonOps.
@@ -11,6 +14,7 @@ Open Scope string_scope.
 
 Section JE.
 Variable re : string -> string -> option bool.
+Variable unk : option json.        (* the value given to WithUnknownValue, if any *)
 
 (* a constant bound by a quantifier: a key (string) or an index (int) *)
 Definition jint_match (op : matchop) (raw : option string) (z : Z) : option bool :=
@@ -38,7 +42,11 @@ Definition jselect (env : lenv) (path : list string) (root : json) : jsel :=
   | Ok (inr p) =>
       match jwalk p root with
       | JFound x => SVal x
-      | JNotFound => if (2 <=? List.length p)%nat && parent_is_object p root then SAbsent else SErr
+      | JNotFound =>
+          match unk with
+          | Some u => SVal u
+          | None => if (2 <=? List.length p)%nat && parent_is_object p root then SAbsent else SErr
+          end
       | _ => SErr end
   | _ => SErr
   end.
@@ -101,7 +109,7 @@ Inductive gv_rel : result gv -> jsel -> Prop :=
 | r_abs : gv_rel (Ok GAbsent) SAbsent
 | r_err e : gv_rel (Err e) SErr.
 
-Lemma get_value_json cfg env path root : hook cfg = None -> unknown cfg = None ->
+Lemma get_value_json cfg env path root : hook cfg = None -> unknown cfg = option_map doc unk ->
   gv_rel (lex_get_value cfg env path (doc root)) (jselect env path root).
 Proof.
   intros Hh Hu. unfold lex_get_value, jselect.
@@ -109,6 +117,7 @@ Proof.
   destruct (lex_resolve env path) as [[v|p]|e|]; [constructor| |constructor|congruence].
   rewrite (get_json cfg p root Hh), Hu, (not_present_json cfg p root Hh).
   destruct (jwalk p root) as [x| | | |]; try constructor.
+  destruct unk as [u|]; cbn [option_map]; [constructor|].
   destruct ((2 <=? List.length p)%nat && parent_is_object p root); constructor.
 Qed.
 
@@ -186,7 +195,7 @@ Lemma keys_of_embed kvs :
   map (fun kv : gval * gval => match fst kv with VStr k => k | _ => "" end) (map (fun kv : string * json => (VStr (fst kv), embed (snd kv))) kvs) = map fst kvs.
 Proof. rewrite map_map. apply map_ext. intros [k v]. reflexivity. Qed.
 
-Theorem lex_eval_json cfg root : hook cfg = None -> unknown cfg = None ->
+Theorem lex_eval_json cfg root : hook cfg = None -> unknown cfg = option_map doc unk ->
   forall e env, wf_ast e -> env_ok env -> agrees (lex_eval re cfg env e (doc root)) (jeval env e root).
 Proof.
   intros Hh Hu. induction e as [a IHa|o a IHa b IHb|s op raw|o s bd inner IH]; intros env Hw He.
@@ -204,7 +213,7 @@ Proof.
     + apply const_match; [|apply Hw].
       unfold jselect in Es. destruct (lex_resolve env (spath s)) as [[c|p]|e|] eqn:El; try discriminate.
       * injection Es as <-. exact (lex_resolve_const_ok env _ _ He El).
-      * destruct (jwalk p root); try discriminate. destruct (_ && _); discriminate.
+      * destruct (jwalk p root); try discriminate. destruct unk; [discriminate|]. destruct (_ && _); discriminate.
     + apply match_op_json. rewrite has_value_same. apply Hw.
   - cbn [lex_eval jeval]. cbn [wf_ast] in Hw.
     pose proof (get_value_json cfg env (spath s) root Hh Hu) as Hg.
@@ -218,7 +227,7 @@ Proof.
       assert (Hc : const_ok v).
       { unfold jselect in Es. destruct (lex_resolve env (spath s)) as [[c|p]|e|] eqn:El; try discriminate.
         - injection Es as <-. exact (lex_resolve_const_ok env _ _ He El).
-        - destruct (jwalk p root); try discriminate. destruct (_ && _); discriminate. }
+        - destruct (jwalk p root); try discriminate. destruct unk; [discriminate|]. destruct (_ && _); discriminate. }
       destruct v as [[t y]|]; [|contradiction].
       destruct t as [|w| | | | | | | | | | | | | | | |]; try contradiction; [destruct w; try contradiction|];
         destruct y; try contradiction; split; try discriminate; reflexivity.
@@ -232,14 +241,26 @@ Proof.
 Qed.
 
 (* the statement for Evaluate itself: the evaluator on a JSON document is the documented interpreter *)
-Theorem json_eval cfg e root : hook cfg = None -> unknown cfg = None -> wf_ast e ->
+Theorem json_eval_unknown cfg e root : hook cfg = None -> unknown cfg = option_map doc unk -> wf_ast e ->
   eval re cfg [] e (doc root) <> Panic /\ clean (eval re cfg [] e (doc root)) = jeval [] e root.
 Proof.
   intros Hh Hu Hw. rewrite (c06_lexical_scoping re cfg (doc root) e [] (Forall_nil _)). cbn [lexify].
   apply lex_eval_json; auto. constructor.
 Qed.
 End JE.
+
+(* without an unknown value *)
+Theorem json_eval re cfg e root : hook cfg = None -> unknown cfg = None -> wf_ast e ->
+  eval re cfg [] e (doc root) <> Panic /\ clean (eval re cfg [] e (doc root)) = jeval re None [] e root.
+Proof. intros Hh Hu Hw. exact (json_eval_unknown re None cfg e root Hh Hu Hw). Qed.
+
+(* C05 on JSON documents, stated against the documented interpreter: with an unknown value u, an expression evaluates on a
+   document in which a member is absent exactly as the interpreter says when every such selector stands for u *)
+Corollary json_unknown_is_substitution re u cfg e root : hook cfg = None -> unknown cfg = Some (doc u) -> wf_ast e ->
+  clean (eval re cfg [] e (doc root)) = jeval re (Some u) [] e root.
+Proof. intros Hh Hu Hw. exact (proj2 (json_eval_unknown re (Some u) cfg e root Hh Hu Hw)). Qed.
 Print Assumptions json_eval.
+Print Assumptions json_eval_unknown.
 
 (* non-vacuity: a document and an expression with a quantifier, an absent member and an error-free result *)
 Example json_eval_example :
@@ -247,5 +268,16 @@ Example json_eval_example :
   let e := EBin BAnd (EMatch {| stype := SelBexpr; spath := ["name"] |} OpEq (Some "x"))
                      (EColl CAny {| stype := SelBexpr; spath := ["items"] |} {| bmode := BDefault; bdefault := "it"; bindex := ""; bvalue := "" |}
                             (EMatch {| stype := SelBexpr; spath := ["it"; "tags"] |} OpIsEmpty None)) in
-  jeval (fun _ _ => None) [] e root = Some true.
+  jeval (fun _ _ => None) None [] e root = Some true.
 Proof. vm_compute. reflexivity. Qed.
+
+(* with the unknown value "x", an absent member compares equal to x - at the top level too, where without it the selector is an error *)
+Example json_unknown_example :
+  let root := JObj [("a", JObj [("b", JNum 0)])] in
+  let sel p := {| stype := SelBexpr; spath := p |} in
+  jeval (fun _ _ => None) (Some (JStr "x")) [] (EMatch (sel ["a"; "zz"]) OpEq (Some "x")) root = Some true /\
+  jeval (fun _ _ => None) (Some (JStr "x")) [] (EMatch (sel ["zz"]) OpEq (Some "x")) root = Some true /\
+  jeval (fun _ _ => None) None [] (EMatch (sel ["zz"]) OpEq (Some "x")) root = None /\
+  jeval (fun _ _ => None) None [] (EMatch (sel ["a"; "zz"]) OpEq (Some "x")) root = Some false /\
+  jeval (fun _ _ => None) (Some JNull) [] (EMatch (sel ["a"; "zz"]) OpEq (Some "x")) root = None.
+Proof. vm_compute. repeat split. Qed.
